@@ -29,11 +29,26 @@ Theorem c18_incompatible_before_any_decode : forall f info p cid,
   forall dec, apply_table_keyed_patch dec f info p = inl (4, 0).
 Proof. exact tk_incompatible_no_decode. Qed.
 
+(* the decoder's dictionary argument: a REPLACE entry is decoded WITHOUT dictionary whatever the base font
+   holds; a diff entry is decoded against exactly the base table *)
+Theorem c18_replace_ignores_base : forall dec f fmt offs p F x t fl ml s, NoDup (map fst f) ->
+  apply_table_keyed dec f fmt offs p = inr F ->
+  tk_first (tk_entries p offs) x = Some (t, fl, ml, s) ->
+  Z.testbit fl 1 = false -> Z.testbit fl 0 = true ->
+  exists k out, dec k s None ml = inr out /\ lookup F x = Some out.
+Proof. exact replace_ignores_base. Qed.
+Theorem c18_diff_uses_base : forall dec f fmt offs p F x t fl ml s, NoDup (map fst f) ->
+  apply_table_keyed dec f fmt offs p = inr F ->
+  tk_first (tk_entries p offs) x = Some (t, fl, ml, s) ->
+  Z.testbit fl 1 = false -> Z.testbit fl 0 = false ->
+  exists k out base, lookup f x = Some base /\ dec k s (Some base) ml = inr out /\ lookup F x = Some out.
+Proof. exact diff_uses_base. Qed.
+
 (* glyph keyed, on the offset-array abstraction: in the new (offsets, data) every glyph's slice is the
    kept replacement data padded as the offset type requires if some patch lists the glyph, else the
    glyph's old slice *)
-Theorem c18_glyph_keyed_exact : forall views t offs data T avail maxgid T' os ds,
-  patch_offset_array views t offs data T avail maxgid = inr (T', os, ds) -> 0 <= maxgid ->
+Theorem c18_glyph_keyed_exact : forall views t offs data T avail e_off maxgid T' os ds,
+  patch_offset_array views t offs data T avail e_off maxgid = inr (T', os, ds) -> 0 <= maxgid ->
   exists m, dedup views t = inr m /\
    (Forall (fun gd => 0 <= fst gd) m ->
     forall g, 0 <= g <= maxgid ->
@@ -48,15 +63,16 @@ Theorem c18_first_patch_wins : forall views t m, dedup views t = inr m ->
 Proof. exact dedup_first_wins. Qed.
 
 (* offsets ascending, numGlyphs+1 of them, first 0, last = data length, all representable *)
-Theorem c18_offsets_ascending : forall views t offs data T avail maxgid T' os ds,
-  patch_offset_array views t offs data T avail maxgid = inr (T', os, ds) -> 0 <= maxgid ->
+Theorem c18_offsets_ascending : forall views t offs data T avail e_off maxgid T' os ds,
+  patch_offset_array views t offs data T avail e_off maxgid = inr (T', os, ds) -> 0 <= maxgid ->
   (forall m, dedup views t = inr m -> Forall (fun gd => 0 <= fst gd) m) ->
   ascending os = true /\ len os = maxgid + 2 /\ nthZ os 0 = Some 0 /\ last os 0 = len ds /\
   Forall (fun x => off_fits T' x = true) os.
 Proof. exact poa_offsets. Qed.
 
-Theorem c18_offset_type_widens_only_when_needed : forall views t offs data T avail maxgid T' os ds,
-  patch_offset_array views t offs data T avail maxgid = inr (T', os, ds) ->
+Theorem c18_offset_type_widens_only_when_needed : forall views t offs data T avail e_off maxgid T' os ds,
+  patch_offset_array views t offs data T avail e_off maxgid = inr (T', os, ds) -> 0 <= maxgid ->
+  (forall m, dedup views t = inr m -> Forall (fun gd => 0 <= fst gd) m) ->
   Forall (fun x => off_fits T' x = true) os /\
   exists total,
     (total <= ot_max T /\ T' = T) \/
@@ -64,18 +80,40 @@ Theorem c18_offset_type_widens_only_when_needed : forall views t offs data T ava
      exists pre post, avail = pre ++ T' :: post /\ Forall (fun c => ot_max c < total) pre).
 Proof. exact poa_type_widens_only_when_needed. Qed.
 
+(* the literal builder loop (OffsetArrayBuilder::build as coded: maximal runs of replaced / kept gids)
+   returns, whenever it succeeds under the checks patch_offset_array makes first, exactly the glyph-by-glyph
+   specification's offsets and data — so the theorems above are about the loop as coded *)
+Theorem c18_run_loop_is_glyph_loop : forall offs data T e_off maxgid, ascending offs = true ->
+  forall fuel gid (m : gmap) w ao ad os ds,
+  0 <= gid <= maxgid + 1 -> gm_ok m -> Forall (fun gd => gid <= fst gd <= maxgid) m ->
+  build_runs fuel (runs_from (map fst m)) (keep_from gid (map fst m) maxgid) (map snd m)
+             offs data T e_off w ao ad = inr (os, ds) ->
+  exists os' ds', build_loop (Z.to_nat (maxgid + 1 - gid)) gid m offs data T e_off w = inr (os', ds') /\
+                  os = ao ++ os' /\ ds = ad ++ ds'.
+Proof. exact build_runs_sound. Qed.
+
 (* glyf/loca instance: new glyf = builder data, new loca = encoded builder offsets, same loca format *)
-Theorem c18_glyf_loca_are_the_builder_output : forall f views maxgid glyf' loca',
-  patch_glyf f views maxgid = inr (glyf', loca') ->
-  exists glyf T offs os,
+Theorem c18_glyf_loca_are_the_builder_output : forall f views maxgid adds,
+  patch_glyf f views maxgid = inr adds ->
+  exists glyf T offs os ds,
     lookup f T_glyf = Some glyf /\ read_loca f = Some (T, offs) /\
-    patch_offset_array views T_glyf offs glyf T [T] maxgid = inr (T, os, glyf') /\
-    loca' = encode_offsets T os.
+    patch_offset_array views T_glyf offs glyf T [T] (6, 10) maxgid = inr (T, os, ds) /\
+    adds = [(T_glyf, ds); (T_loca, encode_offsets T os)].
 Proof. exact patch_glyf_inv. Qed.
+
+(* gvar instance: the offset-array theorems apply to (offsets shifted by the data array offset, whole table);
+   the rebuilt table is assembled from the builder output by gvar_assemble *)
+Theorem c18_gvar_is_the_builder_output : forall f views maxgid adds,
+  patch_gvar f views maxgid = inr adds ->
+  exists g axis stc sto gc fl dao T offs T' os ds g',
+    lookup f T_gvar = Some g /\ read_gvar g = Some (axis, stc, sto, gc, fl, dao, T, offs) /\
+    patch_offset_array views T_gvar (map (fun o => dao + o) offs) g T [ot_short; ot_long] (2, 1) maxgid = inr (T', os, ds) /\
+    gvar_assemble g (axis, stc, sto, gc, fl, dao, T, offs) T' os ds = inr g' /\ adds = [(T_gvar, g')].
+Proof. exact patch_gvar_inv. Qed.
 
 Theorem c18_other_tables_identical : forall f infos views F x, NoDup (map fst f) ->
   gk_core f infos views = inr F ->
-  x <> T_glyf -> x <> T_loca -> x <> T_IFT -> x <> T_IFTX -> lookup F x = lookup f x.
+  x <> T_glyf -> x <> T_loca -> x <> T_gvar -> x <> T_IFT -> x <> T_IFTX -> lookup F x = lookup f x.
 Proof. exact gk_core_other_tables. Qed.
 
 (* applied bits: one application-flag update touches exactly one byte, OR-ing 1 << bit into it ... *)
@@ -114,15 +152,21 @@ Proof. exact apply_next_success_flips. Qed.
 
 (* glyph keyed patches that agree on shared glyphs: any permutation gives the identical font (all tables) *)
 Theorem c18_order_independent : forall f (ivs ivs' : list (pinfo * gp)) F,
-  Permutation ivs ivs' -> views_agree T_glyf (map snd ivs) ->
+  Permutation ivs ivs' -> agree_all (map snd ivs) ->
   gk_core f (map fst ivs) (map snd ivs) = inr F -> gk_core f (map fst ivs') (map snd ivs') = inr F.
 Proof. exact gk_core_perm. Qed.
 
-(* NOT PROVED (tested by the harness oracle over all two-call groupings, each call also being a
-   correspondence case):
-   grouping_independent : views_agree T_glyf (v1 ++ v2) ->
-     gk_core f (i1 ++ i2) (v1 ++ v2) = inr F12 -> gk_core f i1 v1 = inr F1 -> gk_core F1 i2 v2 = inr F2 ->
-     F2 = F12. *)
+(* grouping independence: applying ps1 ++ ps2 in one call gives the same font (every table) as applying
+   ps1 and then ps2 to the result, for glyph keyed patches on glyf/loca that agree on shared glyphs
+   (hypotheses: base font tables sorted by tag as FontBuilder emits them; glyph ids and numGlyphs are
+   unsigned; the patches do not list gvar — for gvar the statement is only tested) *)
+Theorem c18_grouping_independent : forall f i1 i2 v1 v2 F12 F1 F2,
+  gm_ok f -> gids_nonneg (v1 ++ v2) -> views_agree T_glyf (v1 ++ v2) ->
+  (forall mx ng, lookup f T_maxp = Some mx -> uN_at 2 mx 4 = Some ng -> 0 <= ng) ->
+  lists_tag (v1 ++ v2) T_gvar = false ->
+  gk_core f (i1 ++ i2) (v1 ++ v2) = inr F12 ->
+  gk_core f i1 v1 = inr F1 -> gk_core F1 i2 v2 = inr F2 -> F2 = F12.
+Proof. exact gk_core_grouping. Qed.
 
 Print Assumptions c18_table_keyed_exact.
 Print Assumptions c18_incompatible_before_any_decode.
@@ -131,6 +175,10 @@ Print Assumptions c18_first_patch_wins.
 Print Assumptions c18_offsets_ascending.
 Print Assumptions c18_offset_type_widens_only_when_needed.
 Print Assumptions c18_glyf_loca_are_the_builder_output.
+Print Assumptions c18_gvar_is_the_builder_output.
+Print Assumptions c18_run_loop_is_glyph_loop.
+Print Assumptions c18_replace_ignores_base.
+Print Assumptions c18_diff_uses_base.
 Print Assumptions c18_other_tables_identical.
 Print Assumptions c18_applied_bit_update_exact.
 Print Assumptions c18_applied_bits_order_independent.
@@ -138,3 +186,4 @@ Print Assumptions c18_applied_bits_exact.
 Print Assumptions c18_error_leaves_bookkeeping.
 Print Assumptions c18_success_flips_exactly_applied.
 Print Assumptions c18_order_independent.
+Print Assumptions c18_grouping_independent.
